@@ -1187,7 +1187,7 @@ fn gen_cases(report: &Report, seed: u64) -> Vec<Case> {
     let thorough = report.thorough();
     let mut cases = vec![];
     let counts: &[u64] = &[0, 1, 2, 3, 7, 12, 25];
-    let reps = report.size(26, 260);
+    let reps = report.size(26, 800);
     for (pi, preset) in ALL_PRESETS.iter().enumerate() {
         for rep in 0..reps {
             let mut r = rng.fork((pi as u64) << 32 | rep);
@@ -1238,7 +1238,7 @@ fn gen_cases(report: &Report, seed: u64) -> Vec<Case> {
         }
     }
     // end to end through the parallel sampler
-    let e2e_reps = report.size(2, 10);
+    let e2e_reps = report.size(2, 30);
     for (pi, preset) in ALL_PRESETS.iter().enumerate() {
         for rep in 0..e2e_reps {
             let mut r = rng.fork(0xE2E0000 | (pi as u64) << 8 | rep);
